@@ -232,7 +232,10 @@ def build_case(T, rng, op, present, fault=None):
     """encodes one input. `present`: set of optional members to send. Returns (case, sent, info)"""
     o = T.ops[op]
     mem = T.members(op)
-    bucket, key = "my-bucket", rng.choice(["k", "dir/a b.txt", "é中/x", "a+b%25", "q?x=1#f", "*"])
+    # keys as a client may choose them: also beginning with a slash, with the bucket's own name, ending in a slash
+    bucket, key = "my-bucket", rng.choice(["k", "dir/a b.txt", "é中/x", "a+b%25", "q?x=1#f", "*", "/abs/path.txt", "//two/slashes", "my-bucket/inner", "dir/"])
+    # both addressing styles carry the same members: path-style, and virtual-hosted-style under a configured base domain
+    style = "vh" if rng.below(3) == 0 and o["kind"] in ("SK KBucket", "SK KObject") else "path"
     headers, query, body, sent = [("host", "s3.example.com")], [], b"", {}
     payload = None
     for t in o["tags"]:
@@ -288,7 +291,7 @@ def build_case(T, rng, op, present, fault=None):
             body = rng.choice([b'{"Version":"2012-10-17"}', b"plain policy text", b"\xc3\xa9"])
             sent[m] = ("string-body", body)
     info = dict(op=op, payload=payload, key=key)
-    return dict(o=o, bucket=bucket, key=key, headers=headers, query=query, body=body, sent=sent, info=info, mem=mem, blob_len=blob_len)
+    return dict(o=o, bucket=bucket, key=key, headers=headers, query=query, body=body, sent=sent, info=info, mem=mem, blob_len=blob_len, style=style)
 
 
 def finish_case(c, stream=False):
@@ -298,6 +301,11 @@ def finish_case(c, stream=False):
         path = re.search(r'b "([^"]*)"', o["kind"]).group(1)
     q = "&".join(S.uri_encode(k) + ("" if v is None else "=" + S.uri_encode(v)) for k, v in c["query"])
     headers = list(c["headers"])
+    cfg = CFG
+    if c.get("style") == "vh":
+        path = "/" + (pct(c["key"].encode()) if o["kind"] == "SK KObject" else "")
+        headers = [(n, (c["bucket"] + ".s3.example.com") if n == "host" else v) for n, v in headers]
+        cfg = dict(CFG, host=dict(single="s3.example.com"))
     body = c["body"]
     if body or any(m == "content_length" for m, *_ in c["mem"]) and c["blob_len"] is not None:
         if not any(n == "content-length" for n, _ in headers):
@@ -306,7 +314,7 @@ def finish_case(c, stream=False):
     if body:
         jb = dict(kind="stream", frames=[body[i:i + 4096].hex() for i in range(0, len(body), 4096)], transport_error=False) if stream else dict(kind="bytes", data=body.hex())
     req = dict(method=o["method"], uri=hexs(path + ("?" + q if q else "")), headers=[[n, hexs(v)] for n, v in headers], body=jb)
-    return dict(config=CFG, request=req)
+    return dict(config=cfg, request=req)
 
 
 def coq_msg(c):
@@ -589,7 +597,8 @@ def run_proxy_leg(ctx, T, built, cases, res):
     first adapter produced with exactly the same value (Debug text, timestamps with their full precision)"""
     first = {}
     for i, c in enumerate(built):
-        if c["fault"] is None and c["info"]["op"] not in first and res[i].get("events"):
+        # (the proxy harness addresses both adapters path-style: the virtual-hosted-style cases stay on the direct leg)
+        if c["fault"] is None and c["info"]["op"] not in first and res[i].get("events") and c.get("style") != "vh":
             first[c["info"]["op"]] = i
     idx = sorted(first.values())
     pcases = []
